@@ -48,7 +48,7 @@ if __name__ == "__main__":
     snap = None if "--live" in sys.argv else snapshot()
     ids = [a for a in sys.argv[1:] if not a.startswith("--")] or sorted(x for x in os.listdir(os.path.join(REAL_VERIF, "seeded")) if x != "obsolete")
     from concurrent.futures import ThreadPoolExecutor
-    with ThreadPoolExecutor(max_workers=3) as ex:
+    with ThreadPoolExecutor(max_workers=int(os.environ.get("WORKERS", "3"))) as ex:
         res = list(ex.map(lambda s: run_one(s, replay), ids))
     for r in res:
         print("%-8s %-4s %-12s %s" % (r["id"], r["property"], r["outcome"] + ("+witness" if r.get("witness") else ""), (r.get("lines") or [""])[0][:150]))
